@@ -535,7 +535,7 @@ def run(ctx):
     cli_cases = [json.loads(ln) for ln in open(cli_file)]
     if len(cli_cases) * 5 != len(cases):
         raise core.MachineryError("exported %d command-line cases for %d library cases" % (len(cli_cases), len(cases)))
-    every = 3 if ctx.quick else 2
+    every = 3 if ctx.quick else 8
     sel = [dict(c, do_config=(_h(ctx.seed, k, "cfg") % 3 == 0)) for k, c in enumerate(cli_cases) if _h(ctx.seed, k, "cli") % every == 0]
     resc = core.pmap(_work_cli, list(enumerate(sel)), procs=workers)
     ncmd = 0
